@@ -134,3 +134,39 @@ package expressions
 //@   check slice
 //@   requires blk != nil
 //@   requires imp(tree != nil, -1 <= tree.charPos && imp(tree.statement != nil, tree.charPos < len(tree.expression)))
+
+// ---- C09: quoted string literals ---------------------------------------------------------------------------
+// Single quotes, evaluated (exec): the value is exactly the characters between the opening quote at the
+// cursor and the first following quote; the cursor is left on the character before that closing quote;
+// an error is returned iff there is no closing quote.
+//@ func (*ParserT).parseString [C09]
+//@   check none
+//@   requires tree != nil && 0 <= tree.charPos
+//@   loop 1 invariant imp(qStart == '\'' && qEnd == '\'' && exec, old(tree.charPos) + 1 <= tree.charPos && tree.expression == old(tree.expression) && fresh(value))
+//@   loop 1 invariant imp(qStart == '\'' && qEnd == '\'' && exec, len(value) == tree.charPos - old(tree.charPos) - 1)
+//@   loop 1 invariant imp(qStart == '\'' && qEnd == '\'' && exec, forall(k, 0, len(value), value[k] == old(tree.expression[tree.charPos + 1 + k]) && value[k] != '\''))
+//@   loop 1 invariant imp(qStart == '\'' && qEnd == '\'' && exec, forall(k, 0, len(tree.expression), tree.expression[k] == old(tree.expression[k])))
+//@   ensures imp(qStart == '\'' && qEnd == '\'' && exec && result1 == nil, old(tree.charPos) <= tree.charPos && tree.charPos + 1 < len(tree.expression) && tree.expression[tree.charPos + 1] == '\'' && tree.expression == old(tree.expression))
+//@   ensures imp(qStart == '\'' && qEnd == '\'' && exec && result1 == nil, len(result) == tree.charPos - old(tree.charPos))
+//@   ensures imp(qStart == '\'' && qEnd == '\'' && exec && result1 == nil, forall(k, 0, len(result), result[k] == old(tree.expression[tree.charPos + 1 + k]) && result[k] != '\''))
+//@   ensures imp(qStart == '\'' && qEnd == '\'' && exec && result1 != nil, forall(k, old(tree.charPos) + 1, len(tree.expression), old(tree.expression[k]) != '\''))
+
+// Double quotes ("...") and brace quotes (%(...)), evaluated: one step of the scanning loop. With c the
+// character under the cursor (not `$`, `~`, nor a nested `(` of a brace quote - those splice in an
+// expansion parsed elsewhere):
+//   after a backslash the value grows by exactly $unesc(c) (s, t, r, n map to space, tab, CR, LF; any
+//   other character to itself) and the escape ends;
+//   a backslash (double quotes only; brace quotes have no escapes) adds nothing and starts an escape;
+//   any other character is appended verbatim;
+//   the characters collected so far are never changed, and the cursor advances by exactly one.
+// The loop only continues past a character that is escaped or is not the closing quote.
+//@ spec $unesc(c int) int = ite(c == 's', ' ', ite(c == 't', '\t', ite(c == 'r', '\r', ite(c == 'n', '\n', c))))
+//@ func (*ParserT).parseStringInfix [C09]
+//@   check none
+//@   requires tree != nil && 0 <= tree.charPos
+//@   loop 1 step imp(old(tree.expression[tree.charPos]) != '$' && old(tree.expression[tree.charPos]) != '~' && !(old(tree.expression[tree.charPos]) == '(' && qEnd == ')'), tree.charPos == old(tree.charPos) + 1 && tree.expression == old(tree.expression))
+//@   loop 1 step imp(old(tree.expression[tree.charPos]) != '$' && old(tree.expression[tree.charPos]) != '~' && !(old(tree.expression[tree.charPos]) == '(' && qEnd == ')'), escaped == (!old(escaped) && old(tree.expression[tree.charPos]) == '\\' && qEnd != ')'))
+//@   loop 1 step imp(old(tree.expression[tree.charPos]) != '$' && old(tree.expression[tree.charPos]) != '~' && !(old(tree.expression[tree.charPos]) == '(' && qEnd == ')'), len(value) == old(len(value)) + ite(!old(escaped) && old(tree.expression[tree.charPos]) == '\\' && qEnd != ')', 0, 1))
+//@   loop 1 step imp(old(tree.expression[tree.charPos]) != '$' && old(tree.expression[tree.charPos]) != '~' && !(old(tree.expression[tree.charPos]) == '(' && qEnd == ')') && len(value) == old(len(value)) + 1, value[len(value)-1] == ite(old(escaped), $unesc(old(tree.expression[tree.charPos])), old(tree.expression[tree.charPos])))
+//@   loop 1 step imp(old(tree.expression[tree.charPos]) != '$' && old(tree.expression[tree.charPos]) != '~' && !(old(tree.expression[tree.charPos]) == '(' && qEnd == ')'), forall(j, 0, old(len(value)), value[j] == old(value[j])))
+//@   loop 1 step imp(old(tree.expression[tree.charPos]) != '$' && old(tree.expression[tree.charPos]) != '~' && !(old(tree.expression[tree.charPos]) == '(' && qEnd == ')'), old(escaped) || old(tree.expression[tree.charPos]) != qEnd)
